@@ -378,6 +378,13 @@ pub trait ExSeek {
             r is Ok ==> rd_pos(final(self)) == seek_target(pos, rd_pos(old(self)), rd_bytes(old(self)).len() as int) && r->Ok_0 as int == rd_pos(final(self)),
             rd_reliable(old(self)) ==> (r is Ok <==> seek_target(pos, rd_pos(old(self)), rd_bytes(old(self)).len() as int) >= 0);
 }
+/// std: an in-memory `Cursor` over a byte vector is a source whose content is the vector, positioned at 0, that fails only
+/// when asked for bytes past its end (ASSUMED; used only by the verification-only round-trip client)
+pub uninterp spec fn cursor_inner<T>(c: &std::io::Cursor<T>) -> T;
+pub assume_specification<T> [std::io::Cursor::<T>::new] (inner: T) -> (r: std::io::Cursor<T>)
+    ensures cursor_inner(&r) == inner, rd_pos(&r) == 0, rd_loads(&r) == 0;
+pub broadcast axiom fn axiom_cursor_vec(c: &std::io::Cursor<Vec<u8>>)
+    ensures #[trigger] rd_bytes(c) == cursor_inner(c)@, rd_reliable(c);
 } // mod vio
 
 /// stand-in for the `bytemuck` crate (only referenced from bodies that stay external to Verus; Kani checks them)
